@@ -14,7 +14,7 @@ use crate::e2e::*;
 use crate::engine::*;
 use crate::{vensure, vfail};
 
-pub const RULE: &str = "fault enumeration: case = (tracker in {udp-mio, udp-uring, http, ws}, worker kind (socket, swarm, cleaning, statistics, signals, prometheus; detached connection task, cleaning timer task), worker index, worker counts 1..3, fault in {panic, return, set-up failure (unbindable address, occupied prometheus port, reverse-proxy request without header)}, moment in {at start, after k served requests, after 17 / 45 (thorough also 33 / 70) seconds of serving}). Each case runs in a child process that starts the tracker, serves k requests, arms a probe handler (feature verif) that panics or returns in exactly the chosen worker thread, triggers the worker's loop if needed (a request, a connection, SIGUSR1) and measures the time from the fault to run() returning. Oracle: run() returns an error within 10 s of the fault; a tracker still running 20 s after the fault is a violation; a fault that never fires is undecided. non-trivial = the faulted worker is not the only worker of the tracker; distinct = distinct (tracker, worker, index, counts, fault, moment) tuple";
+pub const RULE: &str = "fault enumeration: case = (tracker in {udp-mio, udp-uring, http, ws}, worker kind (socket, swarm, cleaning, statistics, signals, prometheus; detached connection task, cleaning timer task), worker index, worker counts 1..3, fault in {panic, return, set-up failure (unbindable address, occupied prometheus port, reverse-proxy request without header)}, moment in {at start, after k served requests, after 17 / 45 (thorough also 33 / 70) seconds of serving}). Each case runs in a child process that starts the tracker, serves k requests, arms a probe handler (feature verif) that panics or returns in exactly the chosen worker thread, triggers the worker's loop if needed (a request, a connection, SIGUSR1) and measures the time from the fault to run() returning. Oracle: run() returns an error within 10 s of the fault; a tracker still running 20 s after the fault is a violation; a fault that never fires is undecided. non-trivial = the faulted worker is not the only worker of the tracker; distinct = distinct (tracker, worker, index, counts, fault, moment) tuple; plus, in both tiers, cases in which several workers stop within one supervision pass (no socket worker can bind with 2-4 socket workers; the fault armed in every socket / swarm worker at once) and a ladder of fault uptimes (every 3 s from 11 s to 53 s quick, every second to 130 s thorough)";
 
 #[derive(Debug, Clone, Copy, Serialize, Deserialize, PartialEq, Eq, Hash)]
 pub enum Trk {
@@ -121,7 +121,12 @@ pub fn child_main(args: &[String]) -> i32 {
                 return ProbeAction::Continue;
             }
             let tn = std::thread::current().name().unwrap_or("").to_string();
-            if tn != thread {
+            // "socket-*" = every worker of that kind (several workers die at about the same time)
+            let hit = match thread.strip_suffix('*') {
+                Some(prefix) => tn.starts_with(prefix),
+                None => tn == thread,
+            };
+            if !hit {
                 return ProbeAction::Continue;
             }
             if fired.fetch_add(1, Ordering::SeqCst) == 0 {
@@ -371,6 +376,9 @@ pub fn prop(case: &Case) -> CaseResult {
     if case.uptime_before_fault_s > 0 {
         out.label("fault-long-after-start");
     }
+    if matches!(&case.fault, Fault::Probe { thread, .. } if thread.ends_with('*')) || (matches!(case.fault, Fault::UnbindableAddress) && case.socket_workers >= 2) {
+        out.label("several-workers-at-once");
+    }
     out.label(match case.trk {
         Trk::UdpMio => "udp-mio",
         Trk::UdpUring => "udp-uring",
@@ -468,6 +476,29 @@ pub fn grid(tier: Tier) -> Vec<Case> {
     v
 }
 
+/// Several workers stopping at (about) the same time - all socket workers unable to bind, every
+/// worker of one kind hitting the fault within one pass of a supervision loop. Always run, in
+/// both tiers.
+pub fn simultaneous_grid(tier: Tier) -> Vec<Case> {
+    let mut v = Vec::new();
+    let counts: Vec<(u8, u8)> = tier.pick(vec![(2, 2), (3, 3)], vec![(2, 1), (2, 2), (3, 3), (4, 2)]);
+    for (so, sw) in counts {
+        for trk in [Trk::UdpMio, Trk::UdpUring, Trk::Http, Trk::Ws] {
+            v.push(Case { trk, socket_workers: so, swarm_workers: sw, fault: Fault::UnbindableAddress, after_requests: 0, uptime_before_fault_s: 0 });
+        }
+        for trk in [Trk::UdpMio, Trk::UdpUring] {
+            for (k, panic) in [(0u8, true), (1, true), (2, false)] {
+                v.push(Case { trk, socket_workers: so, swarm_workers: 0, fault: probe("udp:socket:loop", "socket-*", panic), after_requests: k, uptime_before_fault_s: 0 });
+            }
+        }
+        v.push(Case { trk: Trk::Http, socket_workers: so, swarm_workers: sw, fault: probe("http:swarm:clean", "swarm-*", true), after_requests: 0, uptime_before_fault_s: 0 });
+        v.push(Case { trk: Trk::Http, socket_workers: so, swarm_workers: sw, fault: probe("http:socket:accept", "socket-*", true), after_requests: 1, uptime_before_fault_s: 0 });
+        v.push(Case { trk: Trk::Ws, socket_workers: so, swarm_workers: sw, fault: probe("ws:swarm:clean", "swarm-*", true), after_requests: 0, uptime_before_fault_s: 0 });
+        v.push(Case { trk: Trk::Ws, socket_workers: so, swarm_workers: sw, fault: probe("ws:socket:accept", "socket-*", true), after_requests: 1, uptime_before_fault_s: 0 });
+    }
+    v
+}
+
 /// Faults long after start-up (the supervision must not slow down or stop looking): the tracker
 /// serves requests for `uptime` seconds first. "Any moment of its life" is sampled by a ladder of
 /// uptimes (every 3 s from 11 s to 53 s in the quick tier, offset by the seed; every second from
@@ -513,10 +544,13 @@ pub fn run(ctx: &mut Ctx) {
     // the late cases sleep most of the time: start them first and give them their own threads
     let mut cases = late_grid(ctx.tier, ctx.seed);
     ctx.threads = (ctx.threads + cases.len().min(24)).min(40);
+    cases.extend(simultaneous_grid(ctx.tier));
     cases.extend(early);
+    let mut seen = std::collections::HashSet::new();
+    cases.retain(|c| seen.insert(c.clone()));
     let exhaustive = ctx.tier == Tier::Thorough;
     ctx.run_enum("faults", cases, exhaustive, prop);
-    for l in ["udp-mio", "udp-uring", "http", "ws", "panic", "return", "setup-failure", "fault-long-after-start"] {
+    for l in ["udp-mio", "udp-uring", "http", "ws", "panic", "return", "setup-failure", "fault-long-after-start", "several-workers-at-once"] {
         ctx.require_label("faults", l, 0.03);
     }
 }
